@@ -107,6 +107,8 @@ type H struct {
 	Prev          []BoxD // real dump before the last op
 	SpecTheorem   string // when set, the model's post-state is the property's specification (by this theorem)
 	SkipValidity  bool   // UIDVALIDITY freshness is C03's business: other properties' runs do not judge it
+	heldSel       string // the mailbox the observer left selected after its last dump (rotates), "" = none
+	dumpN         int
 }
 
 func New(w *world.World, m *hx.Session, rep *hx.Report, user, stream string) *H {
@@ -448,6 +450,16 @@ var reStatus = regexp.MustCompile(`^\* STATUS (.*) \(([^()]*)\)$`)
 // RealDump observes every mailbox over IMAP in a second session: LIST, STATUS, EXAMINE + UID FETCH 1:*.
 func (h *H) RealDump() []BoxD {
 	var out []BoxD
+	// the mailbox this session has had selected since before the last operation: what STATUS says about it now must be what a
+	// fresh look finds (a session's own selection must not make its STATUS stale)
+	held, heldLine := h.heldSel, ""
+	if held != "" {
+		for _, l := range h.O.Cmd("STATUS " + held + " (MESSAGES UIDNEXT UIDVALIDITY UNSEEN)").Untagged {
+			if m := reStatus.FindStringSubmatch(l); m != nil {
+				heldLine = m[2]
+			}
+		}
+	}
 	ls := h.O.Cmd(`LIST "" "*"`)
 	var names []string
 	for _, l := range ls.Untagged {
@@ -499,6 +511,27 @@ func (h *H) RealDump() []BoxD {
 			}
 		}
 		out = append(out, b)
+	}
+	if heldLine != "" {
+		for _, b := range out {
+			if b.Name != held {
+				continue
+			}
+			fresh := fmt.Sprintf("MESSAGES %d UIDNEXT %d UIDVALIDITY %d UNSEEN %d", b.Messages, b.Next, b.Validity, b.Unseen)
+			if heldLine != fresh {
+				h.fail("impl-violation", fmt.Sprintf("STATUS of %q in the session that has had it selected since before the last operation says (%s); the same session, asked while another mailbox is selected, says (%s)", held, heldLine, fresh))
+			}
+			h.Rep.Hit("status-while-selected")
+		}
+	}
+	// leave another mailbox selected for the next round
+	h.heldSel = ""
+	if len(names) > 0 {
+		n := names[h.dumpN%len(names)]
+		h.dumpN++
+		if h.O.Cmd("EXAMINE " + n).OK() {
+			h.heldSel = n
+		}
 	}
 	return out
 }
